@@ -4,7 +4,9 @@
 #include <unistd.h>
 #include "blfkit.h"
 #include "pathrun.h"
+#include <Vector/BLF/CompressedFile.h>
 #include <Vector/BLF/Exceptions.h>
+#include <fstream>
 
 using namespace Vector::BLF;
 
@@ -53,6 +55,23 @@ int main(int argc, char ** argv) {
         // failed (a signature completed by stale bytes of a short read is then discarded by the caller)
         bool match = tail ? (!ok || !uf.good()) : ((ok == (found != 0)) && (!ok || gg == g + 12));
         if (ok && (nr != reads + 4 || ns != seeks)) opdiff++;
+        // the same scan on the outer stream class (CompressedFile over a real std::fstream, whose seekg clears
+        // eofbit): same end position / same obligation to end
+        {
+            std::string path = std::string(argv[1]) + ".bin";
+            { std::ofstream of(path, std::ios::binary | std::ios::trunc); of.write((const char *) bytes.data(), (std::streamsize) bytes.size()); }
+            g_cur = filler + (tail ? " (file ends here)" : "") + " on CompressedFile";
+            CompressedFile cf;
+            cf.open(path.c_str(), std::ios_base::in | std::ios_base::binary);
+            ObjectHeaderBase ohb2(0, ObjectType::UNKNOWN);
+            bool ok2 = true;
+            try { ohb2.read(cf); } catch (Exception &) { ok2 = false; }
+            bool good2 = cf.good();
+            long g2 = good2 ? (long) cf.tellg() : -1;
+            bool match2 = tail ? (!ok2 || !good2) : ((ok2 == (found != 0)) && (!ok2 || g2 == g + 12));
+            cf.close();
+            if (!match2 && match) { match = false; gg = g2; ok = ok2; filler += " [CompressedFile]"; }
+        }
         n++;
         if (!match) {
             bad++;
